@@ -30,6 +30,16 @@ func NewFakePC(rec *Recorder) *FakePC {
 func ClientAddr(c int) *net.UDPAddr { return &net.UDPAddr{IP: net.IPv4(10, 0, 0, byte(c)), Port: 40000 + c} }
 func ClientName(c int) string       { return fmt.Sprintf("c%d", c) }
 
+// ClientOfAddrString is ClientOfAddr for an address in string form.
+func ClientOfAddrString(a string) string {
+	var ip [4]int
+	var port int
+	if n, _ := fmt.Sscanf(a, "%d.%d.%d.%d:%d", &ip[0], &ip[1], &ip[2], &ip[3], &port); n == 5 && port > 40000 && port < 40256 {
+		return ClientName(port - 40000)
+	}
+	return "?"
+}
+
 // clientOfAddr maps an address back to the client name ("?" if unknown)
 func ClientOfAddr(a net.Addr) string {
 	if u, ok := a.(*net.UDPAddr); ok && u.Port > 40000 && u.Port < 40256 {
